@@ -23,7 +23,7 @@ PENDING = {}
 
 PROPS['C01'] = dict(
     id='C01',
-    modules=['CollectionModel.Props.C01', 'CollectionModel.Tie.Fns'],
+    modules=['CollectionModel.Props.C01', 'CollectionModel.Tie.Fns', 'CollectionModel.Tie.LoopsList'],
     key=seq_key, nontrivial=seq_nontrivial,
     rule="cases = single List/Array calls (pre-state, operation, observation) taken from exhaustive boundary "
          "enumeration at small sizes and from random histories; a case is non-trivial when it is not a constructor "
@@ -31,8 +31,8 @@ PROPS['C01'] = dict(
          "operand size class, index class per index argument)",
     exhaustive_subspaces="every operation with every index/slot/range in ±(n+2) and six operand shapes on 3 contents "
                          "per size n ≤ 3 (quick) / n ≤ 5 (thorough), element types int,string,float64,[]int,any, List and Array",
-    level_text="Lean 4 theorems C01_step_refines / C01_history / C01_returns / C01_panic_unchanged / C01_insert_frame: the loop-by-loop model of list.go and array.go refines the abstract ordinal-indexed sequence for every state, operation, index, slot, range, operand and finite history (no size bound). Tied to /repo on every run by a differential run (real code vs compiled Lean model on the same calls) and by the executable spec judging the real observations.",
-    level_note="The theorems are about the hand-written model; the correspondence is sampled (exhaustive only in the stated small sub-spaces). Go int is unbounded in the model; element equality is taken on canonical ids; crypto/rand is external (shuffle judged by the spec only).",
+    level_text="Lean 4 theorems C01_step_refines / C01_history / C01_returns / C01_panic_unchanged / C01_insert_frame: the loop-by-loop model of list.go and array.go refines the abstract ordinal-indexed sequence for every state, operation, index, slot, range, operand and finite history (no size bound). Tied to /repo on every run (a) by translation: toZeroBased / toNormalized (T3) and the rebuild loops of list_ – InsertValue, InsertValues, AppendValue, AppendValues, RemoveValue, RemoveValues, RemoveAll – are re-translated statement by statement (Generated/LoopsList.lean: a fresh array of zero values filled through SetValue, an iterator that hands out the zero value once exhausted, int/uint arithmetic with wrap-around, make failing beyond the int range) and Tie.listInsertValue_tie … listRemoveValues_tie prove them equal to the model's functions for every list shorter than 2^62, every slot, index and range; (b) by a differential run (real code vs compiled Lean model on the same calls) and by the executable spec judging the real observations.",
+    level_note="The theorems are about the hand-written model (array_'s own methods and the searching methods are tied by the differential run only); the correspondence is sampled (exhaustive only in the stated small sub-spaces). Go int is unbounded in the model; element equality is taken on canonical ids; crypto/rand is external (shuffle judged by the spec only).",
     assumptions=["Go int is unbounded in the model (indices near MaxInt not generated)",
                  "element equality is structural equality of the canonical ids (NaN excluded as the property states)",
                  "ShuffleValues: crypto/rand indices are in range (model hypothesis Op.wf); the run only judges the result by the spec"],
@@ -44,14 +44,14 @@ def stack_key(l):
 
 PROPS['C13'] = dict(
     id='C13',
-    modules=['CollectionModel.Props.C13', 'CollectionModel.Tie.Facts'],
+    modules=['CollectionModel.Props.C13', 'CollectionModel.Tie.Facts', 'CollectionModel.Tie.LoopsStack'],
     key=stack_key, nontrivial=lambda l: l.get('op') not in ('getSize', 'isEmpty', 'getCapacity'),
     rule="cases = single Stack calls (pre-state incl. capacity, operation, observation) from all mutator histories up to "
          "depth 5 (quick) / 8 (thorough) for capacities 1..4, constructors from 0..2*default+1 initial values pushed past "
          "capacity and popped past empty, and random histories; non-trivial = not a pure size/capacity observer; distinct = "
          "distinct (operation, outcome, size class, capacity, full?, operand size class)",
     exhaustive_subspaces="all histories over {AddValue, RemoveTop, RemoveAll} up to the depth bound for capacities 1..4",
-    level_text="Lean 4 theorems C13_step_refines (LIFO refinement of the guard+rebuild-loop model), C13_step_bounded / C13_bound_history (size <= capacity after every call of every history, for every capacity >= 1 and every constructor), C13_constructors_bounded, C13_panic_unchanged. Tied to /repo by the differential run and the executable LIFO spec on the real observations.",
+    level_text="Lean 4 theorems C13_step_refines (LIFO refinement of the guard+rebuild-loop model), C13_step_bounded / C13_bound_history (size <= capacity after every call of every history, for every capacity >= 1 and every constructor), C13_constructors_bounded, C13_panic_unchanged. Tied to /repo (a) by translation: the guards of stack_.AddValue / RemoveTop and the capacity logic of Make, MakeWithCapacity, MakeFromArray, MakeFromSequence are re-translated on every run (Generated/LoopsStack.lean, uint arithmetic modulo 2^64) and Tie.stackAddValue_tie … stackMakeFromSequence_tie prove them equal to the model's for every capacity and size below 2^64; (b) by the differential run and the executable LIFO spec on the real observations.",
     level_note="Model parametric in the default capacity (read from the class at run time and shipped in every line). Sampled correspondence.",
     assumptions=["the default capacity is read from Stack[int].DefaultCapacity() at run time"],
 )
@@ -79,7 +79,7 @@ PROPS['C17'] = dict(
 
 PROPS['C09'] = dict(
     id='C09',
-    modules=['CollectionModel.Props.C09'],
+    modules=['CollectionModel.Props.C09', 'CollectionModel.Tie.LoopsSorter', 'CollectionModel.Props.C09Source'],
     key=lambda l: (l.get('via'), l.get('op'), l.get('rk'), size_class(l.get('n', 0)) if l.get('n', 0) < 40 else 6 + min(l.get('n', 0) // 300, 4), l.get('out')),
     nontrivial=lambda l: l.get('n', 0) >= 2,
     rule="cases = one SortValues / ReverseValues / ShuffleValues call (input array, ranker, route: sorter / Array / List / "
@@ -88,8 +88,8 @@ PROPS['C09'] = dict(
          "arrays to length 4 through the three collection kinds, random shapes (duplicates, presorted, reversed, saw-tooth) up "
          "to length 600 / 5000; non-trivial = length >= 2; distinct = distinct (route, operation, ranker, length class, outcome)",
     exhaustive_subspaces="all arrays of length 0..6 (quick) / 0..9 (thorough) over the alphabet {1,4,5,9} through the sorter; length 0..4 over 3 values through Array, List, Catalog",
-    level_text="Lean 4 theorems C09_sort_perm_any_ranker (permutation for EVERY ranking function, including stateful/inconsistent ones, by induction over the merge passes as written: left head only on Lesser, copy-the-rest arms, doubling width, clamped middle/right), C09_sort_ascending (total preorder => no earlier value ranks Greater than a later one; chunk invariant of the bottom-up passes), C09_fuel_irrelevant (the doubling loop ends by width, i.e. terminates), C09_reverse / C09_reverse_involutive (half-length swap loop = List.reverse), C09_shuffle_perm, C09_collection_sort_delegates. Tied to /repo by the differential run (model output vs real output modulo rank-equal ties) and the executable spec.",
-    level_note="Correspondence compares outputs modulo the order inside rank-equal runs (stability is not part of the property) and only as multisets for inconsistent rankers. crypto/rand is external. The in-place buffer swapping of sortValues is modelled functionally (Go slices as lists).",
+    level_text="Lean 4 theorems C09_sort_perm_any_ranker (permutation for EVERY ranking function, including stateful/inconsistent ones, by induction over the merge passes as written: left head only on Lesser, copy-the-rest arms, doubling width, clamped middle/right), C09_sort_ascending (total preorder => no earlier value ranks Greater than a later one; chunk invariant of the bottom-up passes), C09_fuel_irrelevant (the doubling loop ends by width, i.e. terminates), C09_reverse / C09_reverse_involutive (half-length swap loop = List.reverse), C09_shuffle_perm, C09_collection_sort_delegates. Tied to /repo (a) by translation: sorter.go's mergeArrays, sortValues, ReverseValues and ShuffleValues are re-translated statement by statement on every run onto a memory of arrays (Generated/LoopsSorter.lean: 64-bit wrap-around index arithmetic, bounds-checked slices and re-slices, copy as memmove, make, the two arrays swapping roles) and Tie.mergeArrays_tie / sortValues_tie / reverseValues_tie / shuffleValues_tie prove that this code computes the list-level model for every array shorter than 2^61 and every stateful ranker, so C09_source_sort_perm / C09_source_sort_ascending / C09_source_reverse / C09_source_shuffle_perm state the property of the code as it is written now; (b) by the differential run (model output vs real output modulo rank-equal ties) and the executable spec.",
+    level_note="Correspondence compares outputs modulo the order inside rank-equal runs (stability is not part of the property) and only as multisets for inconsistent rankers. crypto/rand is external (hypothesis of shuffleValues_tie: indices within [0,size)). The translator (verif/extract/loops.go) and the Go-semantics kit (Model/GoSem.lean) are trusted; the Sort/Reverse/Shuffle methods of Array, List and Catalog that delegate to the sorter are tied by the differential run only.",
     assumptions=["rankers are shared by name between harness and driver (identical arithmetic on both sides)"],
 )
 
@@ -100,7 +100,7 @@ def set_key(l):
 
 PROPS['C02'] = dict(
     id='C02',
-    modules=['CollectionModel.Props.C02'],
+    modules=['CollectionModel.Props.C02', 'CollectionModel.Tie.LoopsSet'],
     key=set_key, nontrivial=lambda l: l.get('op') != 'make',
     rule="cases = single Set calls (pre-state, collator, operation, observation): every operation with every universe and "
          "outside value from every subset state of a 5-6 value universe (quick: every third subset for the 6-value one), bulk "
@@ -108,7 +108,7 @@ PROPS['C02'] = dict(
          "growth run to size 200/1000; collators default, reversed, coarse; element types int, string, []int, any, Set[int]; "
          "non-trivial = not the constructor line; distinct = distinct (type, collator, operation, outcome, sizes, aliasing, boolean result)",
     exhaustive_subspaces="all single steps from all subset states of the universe, per element type and collator (thorough tier)",
-    level_text="Lean 4 theorems: C02_findIndex (the binary search as written – first/last/size triple, middle = first + size/2 – returns found=(member up to rank-equivalence) with the rank-equal index, else the insertion slot <= size with everything before below and everything after above the probe), C02_step_refines (every Set call refines the abstract ordered duplicate-free set), C02_step_sorted / C02_history_sorted (strictly ascending after every call of every history, for ANY total-preorder collator), C02_add_members / C02_remove_members (membership = added and not removed), C02_slot_in_range. Tied to /repo by the differential run and the executable spec on the real observations.",
+    level_text="Lean 4 theorems: C02_findIndex (the binary search as written – first/last/size triple, middle = first + size/2 – returns found=(member up to rank-equivalence) with the rank-equal index, else the insertion slot <= size with everything before below and everything after above the probe), C02_step_refines (every Set call refines the abstract ordered duplicate-free set), C02_step_sorted / C02_history_sorted (strictly ascending after every call of every history, for ANY total-preorder collator), C02_add_members / C02_remove_members (membership = added and not removed), C02_slot_in_range. Tied to /repo (a) by translation: set_.findIndex is re-translated statement by statement on every run (Generated/LoopsSet.lean, int arithmetic with 64-bit wrap-around, truncating division) and Tie.findIndex_tie proves it equal to the model's binary search for every list shorter than 2^63, every collator and every probe; (b) by the differential run and the executable spec on the real observations.",
     level_note="Collators are shared by name between harness and driver; the default collator is exercised through canonical ids whose order equals the default collator's order (C07 is about the collator itself). Sampled correspondence.",
 )
 
